@@ -19,9 +19,9 @@ func init() {
 			"closure = functions of the same package reached by statically resolved calls",
 		},
 		Rules: []RuleDef{
-			{Name: "C08-EDGES", Floor: 12, Doc: "every subtype decision reads extends, implements-of-ancestors and interface-extends edges", Run: c08Run},
-			{Name: "C08-LOOKUP", Floor: 3, Doc: "method lookup starts at the runtime class and walks the extends chain", Run: nop},
-			{Name: "C08-LIKE", Floor: 5, Doc: "like iterates all target methods, compares parameter counts, and looks up through inheritance", Run: nop},
+			{Name: "C08-EDGES", Floor: 6, Doc: "every subtype decision reads extends, implements-of-ancestors and interface-extends edges", Run: c08Run},
+			{Name: "C08-LOOKUP", Floor: 1, Doc: "method lookup starts at the runtime class and walks the extends chain", Run: nop},
+			{Name: "C08-LIKE", Floor: 2, Doc: "like iterates all target methods, compares parameter counts, and looks up through inheritance", Run: nop},
 		},
 	})
 }
